@@ -477,15 +477,17 @@ def r8(ctx, rep):
 
 def r9(ctx, rep):
     rep.rule("C13.R9", "spans are ordered and stay inside the text they were measured in: parser spans take both ends from the same token list (start falls back to 0, end to start); "
-             "interpolation spans are `span_base.start + offset` at both ends", floor=4)
+             "interpolation spans are `span_base.start + offset` at both ends", floor=3)
     syn = ctx.syn
     import alpha
-    pp = syn.fn("parser::parse_lr_to_pr", crate="prqlc_parser")
-    A = alpha.Inliner(pp)
-    sites = [n for n in walk(pp["body"]) if n.get("k") == "struct" and last_seg(n["p"]) == "Span"]
+    pp0 = syn.fn("parser::parse_lr_to_pr", crate="prqlc_parser")
+    # the Span is built in parse_lr_to_pr or in a private helper of the same file that it calls (the body of the map_span closure, extracted)
+    owners = [pp0] + [h for h in syn.fns if h["crate"] == pp0["crate"] and h["file"] == pp0["file"] and "body" in h and h is not pp0
+                      and any(c.get("k") == "call" and c["f"].get("k") == "path" and last_seg(c["f"]["p"]) == h["name"] for c in walk(pp0["body"]))]
+    sites = [(g, n) for g in owners for n in walk(g["body"]) if n.get("k") == "struct" and last_seg(n["p"]) == "Span"]
     if not sites:
         raise AnchorMissing("parse_lr_to_pr: the Span built by map_span")
-    for i, n in enumerate(sites, 1):
+    for i, (pp, n) in enumerate(sites, 1):
         d = dict(n["f"])
         def val(e):
             # the local the field is given (one step: the token list itself stays a name)
